@@ -210,12 +210,12 @@ theorem C07_holdsOn_partial (c : Compressor) (hc : Lossless c) (op : Op) (h : We
   | s8b vs => exact holdsOn_s8b c vs
   | codec v =>
     obtain ⟨⟨a, a1, a2⟩, ⟨b, b1, b2⟩⟩ := vals_roundtrip c hc v h.1 h.2
-    simp only [holdsOn, run]
-    exact roundTrips_rtOf v _ _ _ a b a1 b1 a2 b2
+    simp only [holdsOn, run, Bool.and_eq_true]
+    exact ⟨⟨roundTrips_rtOf v _ _ _ a b a1 b1 a2 b2, by simp [rtOf, b1, b2]⟩, by simp [rtOf, b1, b2]⟩
   | time ts =>
     obtain ⟨⟨a, a1, a2⟩, ⟨b, b1, b2⟩⟩ := timestamp_roundtrip ts h.1 h.2
-    simp only [holdsOn, run]
-    exact roundTrips_rtOf ts _ _ _ a b a1 b1 a2 b2
+    simp only [holdsOn, run, Bool.and_eq_true]
+    exact ⟨⟨roundTrips_rtOf ts _ _ _ a b a1 b1 a2 b2, by simp [rtOf, b1, b2]⟩, by simp [rtOf, b1, b2]⟩
   | block ts v =>
     obtain ⟨hts, hlen, hwf, hn⟩ := h
     simp only [holdsOn, run]
